@@ -221,10 +221,14 @@ func (n *Node) SetAttribute(id ua.AttributeID, val *ua.DataValue) error {
 
 func (n *Node) BrowseName() *ua.QualifiedName {
 	v := n.attr[ua.AttributeIDBrowseName]
-	if v == nil || v.Value.Value() == nil {
+	// the attribute can be overwritten by a client with a value of any type
+	if v == nil || v.Value == nil {
 		return &ua.QualifiedName{}
 	}
-	return v.Value.Value().(*ua.QualifiedName)
+	if qn, ok := v.Value.Value().(*ua.QualifiedName); ok && qn != nil {
+		return qn
+	}
+	return &ua.QualifiedName{}
 }
 
 func (n *Node) SetBrowseName(s string) {
@@ -233,10 +237,13 @@ func (n *Node) SetBrowseName(s string) {
 
 func (n *Node) DisplayName() *ua.LocalizedText {
 	v := n.attr[ua.AttributeIDDisplayName]
-	if v == nil || v.Value.Value() == nil {
+	if v == nil || v.Value == nil {
 		return &ua.LocalizedText{}
 	}
-	val := v.Value.Value().(*ua.LocalizedText)
+	val, ok := v.Value.Value().(*ua.LocalizedText)
+	if !ok || val == nil {
+		return &ua.LocalizedText{}
+	}
 	val.UpdateMask()
 	return val
 }
@@ -249,10 +256,13 @@ func (n *Node) SetDisplayName(text, locale string) {
 
 func (n *Node) Description() *ua.LocalizedText {
 	v := n.attr[ua.AttributeIDDescription]
-	if v == nil || v.Value.Value() == nil {
+	if v == nil || v.Value == nil {
 		return &ua.LocalizedText{}
 	}
-	return v.Value.Value().(*ua.LocalizedText)
+	if lt, ok := v.Value.Value().(*ua.LocalizedText); ok && lt != nil {
+		return lt
+	}
+	return &ua.LocalizedText{}
 }
 
 func (n *Node) SetDescription(text, locale string) {
@@ -265,7 +275,12 @@ func (n *Node) DataType() *ua.ExpandedNodeID {
 		return ua.NewTwoByteExpandedNodeID(0)
 	}
 	v := n.attr[ua.AttributeIDDataType]
-	if v == nil || v.Value.Value() == nil {
+	var dt *ua.ExpandedNodeID
+	if v != nil && v.Value != nil {
+		// the attribute can be overwritten by a client with a value of any type
+		dt, _ = v.Value.Value().(*ua.ExpandedNodeID)
+	}
+	if dt == nil {
 		// if we have a type definition, return that?
 		for i := range n.refs {
 			r := n.refs[i]
@@ -278,7 +293,7 @@ func (n *Node) DataType() *ua.ExpandedNodeID {
 		}
 		return ua.NewTwoByteExpandedNodeID(0)
 	}
-	return v.Value.Value().(*ua.ExpandedNodeID)
+	return dt
 }
 
 func (n *Node) SetNodeClass(nc ua.NodeClass) {
@@ -287,7 +302,7 @@ func (n *Node) SetNodeClass(nc ua.NodeClass) {
 
 func (n *Node) NodeClass() ua.NodeClass {
 	v := n.attr[ua.AttributeIDNodeClass]
-	if v == nil || v.Value.Value() == nil {
+	if v == nil || v.Value == nil || v.Value.Value() == nil {
 		return ua.NodeClassObject
 	}
 	vi32, ok := v.Value.Value().(int32)
